@@ -11,6 +11,28 @@ using Cfg = hfsm2::Config::ManualActivation::RandomT<Rng>;
 using M = hfsm2::MachineT<Cfg>;
 #define S(s) struct s
 #define VM_UTILITY 1
+#ifdef VM_NESTED_UTIL
+// utilitarian region with a nested utilitarian region and an orthogonal prong (utility of a nested region = head x chosen sub; orthogonal = head x mean)
+using FSM = M::PeerRoot< S(A), M::Utilitarian<S(U), S(U1), M::Utilitarian<S(V), S(V1), S(V2)>, M::Orthogonal<S(O), S(O1), S(O2)>> >;
+#define VM_NS 10
+#define VM_NC 3
+#include "tier_c/spec_types.hpp"
+static const VSpec VM_SPEC[VM_NS] = {
+  /*0 root*/ { -1, 0, K_COMPO, 2, ST_COMPOSITE,   0 },
+  /*1 A   */ {  0, 0, K_LEAF,  0, ST_NONE,       -1 },
+  /*2 U   */ {  0, 1, K_COMPO, 3, ST_UTILITARIAN, 1 },
+  /*3 U1  */ {  2, 0, K_LEAF,  0, ST_NONE,       -1 },
+  /*4 V   */ {  2, 1, K_COMPO, 2, ST_UTILITARIAN, 2 },
+  /*5 V1  */ {  4, 0, K_LEAF,  0, ST_NONE,       -1 },
+  /*6 V2  */ {  4, 1, K_LEAF,  0, ST_NONE,       -1 },
+  /*7 O   */ {  2, 2, K_ORTHO, 2, ST_NONE,        0 },
+  /*8 O1  */ {  7, 0, K_LEAF,  0, ST_NONE,       -1 },
+  /*9 O2  */ {  7, 1, K_LEAF,  0, ST_NONE,       -1 },
+};
+#define VM_NCFG 5
+#include "tier_c/machine_common.hpp"
+struct A : St<1> {}; struct U : St<2> {}; struct U1 : St<3> {}; struct V : St<4> {}; struct V1 : St<5> {}; struct V2 : St<6> {}; struct O : St<7> {}; struct O1 : St<8> {}; struct O2 : St<9> {};
+#else
 using FSM = M::PeerRoot< S(A), M::Utilitarian<S(U), S(U1), S(U2), S(U3)>, M::Random<S(N), S(N1), S(N2), S(N3)> >;
 #define VM_NS 10
 #define VM_NC 3
@@ -30,6 +52,7 @@ static const VSpec VM_SPEC[VM_NS] = {
 #define VM_NCFG 7
 #include "tier_c/machine_common.hpp"
 struct A : St<1> {}; struct U : St<2> {}; struct U1 : St<3> {}; struct U2 : St<4> {}; struct U3 : St<5> {}; struct N : St<6> {}; struct N1 : St<7> {}; struct N2 : St<8> {}; struct N3 : St<9> {};
+#endif
 #include "tier_c/view.hpp"
 #include "tier_c/steps.hpp"
 #include "tier_c/entries.hpp"
